@@ -163,7 +163,7 @@ func allChecks() []CheckSpec {
 				"method-atomic granularity: each protocol method runs to completion before the next starts; a spin-wait (runtime.Gosched loop) counts as blocked",
 				"context.WithCancel executed as real code; goroutines take turns at operation boundaries",
 			}, commonAssumptions...),
-			Outside: "the fine-grained interleavings of the lock-free state word (abort between setting 'blocked' and arming the deadline, three parties), context-cancelled writes, the TCP mux flavour (its Close waits on goroutines)",
+			Outside: "more than two concurrent writers, context bounds above 2 (3 thorough), the TCP mux flavour (its Close waits on goroutines)",
 		},
 		{
 			ID: "C16",
